@@ -1193,6 +1193,8 @@ public:
         swap(t);
     }
     VSTD_INLINE bool expired() const noexcept { return mC == nullptr || mC->strong == 0; }
+    template<class Y> bool owner_before(const weak_ptr<Y> &o) const noexcept { return (uintptr_t)mC < (uintptr_t)o.mC; }
+    template<class Y> bool owner_before(const shared_ptr<Y> &o) const noexcept { return (uintptr_t)mC < (uintptr_t)o.mC; }
     shared_ptr<T> lock() const noexcept
     {
         shared_ptr<T> r;
@@ -1606,6 +1608,142 @@ template<class K, class V> class unordered_map: public map<K, V>
 {
 public:
     using map<K, V>::map;
+};
+
+// multimap: sorted by key, equal keys in insertion order (as libstdc++ does)
+template<class K, class V, class C = less<K>> class multimap
+{
+    static const size_t CAP = __map_cap<K, V>::value;
+
+public:
+    typedef pair<const K, V> value_type;
+    typedef value_type *iterator;
+    typedef const value_type *const_iterator;
+    multimap() noexcept : mN(0) {}
+    multimap(const multimap &o) : mN(0)
+    {
+        for (size_t i = 0; i < o.mN; ++i) {
+            new (ptr() + mN++) value_type(o.ptr()[i]);
+        }
+    }
+    ~multimap() { clear(); }
+    multimap &operator=(const multimap &o)
+    {
+        if (this != &o) {
+            clear();
+            for (size_t i = 0; i < o.mN; ++i) {
+                new (ptr() + mN++) value_type(o.ptr()[i]);
+            }
+        }
+        return *this;
+    }
+    VSTD_INLINE size_t size() const noexcept { return mN; }
+    VSTD_INLINE bool empty() const noexcept { return mN == 0; }
+    VSTD_INLINE iterator begin() noexcept { return ptr(); }
+    VSTD_INLINE iterator end() noexcept { return ptr() + mN; }
+    VSTD_INLINE const_iterator begin() const noexcept { return ptr(); }
+    VSTD_INLINE const_iterator end() const noexcept { return ptr() + mN; }
+    void clear() noexcept
+    {
+        while (mN > 0) {
+            ptr()[--mN].~value_type();
+        }
+    }
+    size_t lower(const K &k) const
+    {
+        size_t i = 0;
+        while (i < mN && mCmp(ptr()[i].first, k)) {
+            ++i;
+        }
+        return i;
+    }
+    size_t upper(const K &k) const
+    {
+        size_t i = 0;
+        while (i < mN && !mCmp(k, ptr()[i].first)) {
+            ++i;
+        }
+        return i;
+    }
+    size_t count(const K &k) const { return upper(k) - lower(k); }
+    iterator find(const K &k)
+    {
+        size_t i = lower(k);
+        return (i < mN && !mCmp(k, ptr()[i].first)) ? ptr() + i : end();
+    }
+    const_iterator find(const K &k) const
+    {
+        size_t i = lower(k);
+        return (i < mN && !mCmp(k, ptr()[i].first)) ? ptr() + i : end();
+    }
+    iterator lower_bound(const K &k) { return ptr() + lower(k); }
+    iterator upper_bound(const K &k) { return ptr() + upper(k); }
+    pair<iterator, iterator> equal_range(const K &k) { return pair<iterator, iterator>(ptr() + lower(k), ptr() + upper(k)); }
+    pair<const_iterator, const_iterator> equal_range(const K &k) const { return pair<const_iterator, const_iterator>(ptr() + lower(k), ptr() + upper(k)); }
+    iterator __insert(const value_type &v)
+    {
+        size_t i = upper(v.first);
+        if (mN >= CAP) {
+            __vstd_fail("vstd::multimap capacity exceeded");
+            return ptr();
+        }
+        for (size_t k = mN; k > i; --k) {
+            new (ptr() + k) value_type(ptr()[k - 1]);
+            ptr()[k - 1].~value_type();
+        }
+        new (ptr() + i) value_type(v);
+        ++mN;
+        return ptr() + i;
+    }
+    iterator insert(const value_type &v) { return __insert(v); }
+    template<class P, class = typename enable_if<is_convertible<P, value_type>::value>::type> iterator insert(P &&p)
+    {
+        value_type v(forward<P>(p));
+        return __insert(v);
+    }
+    template<class A, class B> iterator emplace(A &&a, B &&b)
+    {
+        value_type v(forward<A>(a), forward<B>(b));
+        return __insert(v);
+    }
+    iterator erase(const_iterator pos)
+    {
+        size_t i = (size_t)(pos - ptr());
+        for (size_t k = i; k + 1 < mN; ++k) {
+            ptr()[k].~value_type();
+            new (ptr() + k) value_type(ptr()[k + 1]);
+        }
+        ptr()[--mN].~value_type();
+        return ptr() + i;
+    }
+
+private:
+    VSTD_INLINE value_type *ptr() noexcept { return mU.a; }
+    VSTD_INLINE const value_type *ptr() const noexcept { return mU.a; }
+    size_t mN;
+    C mCmp;
+    union U
+    {
+        value_type a[CAP];
+        U() {}
+        ~U() {}
+    } mU;
+};
+// std::hash<std::string>: FNV-1a (any fixed function of the text is a faithful stand-in: callers only compare hashes)
+template<> struct hash<string>
+{
+    size_t operator()(const string &s) const noexcept
+    {
+        size_t h = 1469598103934665603UL;
+        for (size_t i = 0; i < s.size(); ++i) {
+            h ^= (unsigned char)s[i];
+            h *= 1099511628211UL;
+        }
+        if (s.__truncated()) {
+            __vstd_trunc_used = 1;
+        }
+        return h;
+    }
 };
 
 template<class... T> struct tuple;
